@@ -9,7 +9,7 @@ wt=/tmp/val-$name
 git -C /repo worktree remove --force $wt 2>/dev/null
 git -C /repo worktree add -q --detach $wt HEAD || exit 2
 demo=$(ls $src/demo* | head -1)
-place() { if [ "$dest" != "-" ]; then mkdir -p $(dirname $wt/$dest); cp $demo $wt/$dest; else mkdir -p $wt/seeded/x; cp $demo $wt/seeded/x/; [ -f $src/../go.mod ] && cp $src/../go.mod $wt/seeded/go.mod; fi; }
+place() { if [ "$dest" != "-" ]; then mkdir -p $(dirname $wt/$dest); cp $demo $wt/$dest; else mkdir -p $wt/seeded/x; cp $demo $wt/seeded/x/; if [ -f $src/../go.mod ]; then cp $src/../go.mod $wt/seeded/go.mod; fi; fi; true; }
 ( cd $wt && place && go test -vet=off -count=1 "$@" > /tmp/val-$name.clean.log 2>&1 ); clean=$?
 ( cd $wt && git apply $src/patch.diff ) || { echo "SEED $name: patch does not apply"; exit 2; }
 ( cd $wt && go test -vet=off -count=1 "$@" > /tmp/val-$name.patched.log 2>&1 ); patched=$?
